@@ -54,6 +54,12 @@ def _module_consts(tree: ast.Module, module: str, depth: int = 0) -> dict:
     and names imported from other repo modules (one level)."""
     consts: dict = {}
     for s in tree.body:
+        if isinstance(s, ast.ImportFrom) and s.module == "math":
+            import math
+            for a in s.names:
+                if a.name in ("pi", "e", "inf", "tau"):
+                    consts[a.asname or a.name] = getattr(math, a.name)
+            continue
         if isinstance(s, ast.ImportFrom) and s.module and s.module.startswith("moptipyapps") and depth < 2:
             try:
                 _, t2 = _parse(module_path(s.module))
